@@ -422,7 +422,7 @@ pub fn c02(args: &Args) {
     }
     c02_exhaustive(&mut report, args);
     let seed = args.seed;
-    let n = args.pick(25_000, 1_500_000);
+    let n = args.pick(100_000, 3_000_000);
     for mode in 0..4u64 {
         run_cases(&mut report, n, args.threads, Duration::from_secs(args.pick(60, 900)), |i| c02_random_case(seed, i, mode));
     }
@@ -488,7 +488,12 @@ where
     let mut node = ActorNode::start(inner.clone(), ctl.clone(), addr, true).await?;
     let hour_scale = rng.gen_bool(0.5);
     let mut g = ReqGen::new(StdRng::seed_from_u64(rng.gen()), if hour_scale { 30_000_000 } else { 3_000_000 }, false);
-    let nreq = g.rng.gen_range(1..10);
+    // one history in four works on a larger state (up to 16 ids per keyspace, up to 40 requests)
+    let large = i % 4 == 1;
+    if large {
+        g.keys = 16;
+    }
+    let nreq = if large { g.rng.gen_range(10..40) } else { g.rng.gen_range(1..10) };
     let crash_inside = g.rng.gen_bool(0.5);
     let keyspaces = ["a", "b"];
     let mut trace = Vec::new();
@@ -594,7 +599,7 @@ pub fn c07(args: &Args) {
     let mut report = Report::new(
         args,
         "E1-actor",
-        "request histories of 1..9 requests (same alphabet as C02 incl. service payloads, 2 keyspaces, hour-scale stamps in half) against a real KeyspaceGroup; crash point = after any request, or INSIDE the last one (the wrapper performs the inner write - for bulk calls of the first j documents - and never returns; group, actors and server are dropped). Restart = fresh KeyspaceGroup + load_states_from_storage on the same storage (MemStore shared Arc; SQLite file closed and reopened, 1 in 8). Oracle: for every keyspace storage lists, the rebuilt set's listing == iter_metadata (ids, stamps, live/tombstone); every mutation that was visible in storage right after its acknowledgement is present after the restart or superseded by a newer stamp for that id. Non-trivial = crashed inside a request or >= 2 visible mutations; distinct = distinct histories.",
+        "request histories of 1..9 requests over 3 ids (one in four: 10..39 requests over 16 ids) (same alphabet as C02 incl. service payloads, 2 keyspaces, hour-scale stamps in half) against a real KeyspaceGroup; crash point = after any request, or INSIDE the last one (the wrapper performs the inner write - for bulk calls of the first j documents - and never returns; group, actors and server are dropped). Restart = fresh KeyspaceGroup + load_states_from_storage on the same storage (MemStore shared Arc; SQLite file closed and reopened, 1 in 8). Oracle: for every keyspace storage lists, the rebuilt set's listing == iter_metadata (ids, stamps, live/tombstone); every mutation that was visible in storage right after its acknowledgement is present after the restart or superseded by a newer stamp for that id. Non-trivial = crashed inside a request or >= 2 visible mutations; distinct = distinct histories.",
     );
     let dir = std::path::PathBuf::from("/verif/harness/target/tmp").join(format!("c07-{}", std::process::id()));
     let _ = std::fs::create_dir_all(&dir);
@@ -737,7 +742,7 @@ pub fn c18(args: &Args) {
         "k in 2..8 tasks concurrently make the first use of a fresh keyspace name on one real KeyspaceGroup through different entry points (get_or_create_keyspace + Set; ConsistencyService put / multi_put over the in-memory transport; ReplicationService GetState followed by a repair-sourced Set) and send one mutation each (distinct ids, distinct origins, stamps inside one window so every one applies). A later lookup's serialized set must contain every acknowledged operation and agree with storage. Runtimes: current-thread (the awaits inside add_state yield naturally; task order rotated) and multi-thread with 2/4/16 workers and random pre-yields. A creation counter (hook H6) observes how many states were created per name. Non-trivial = >= 2 states were created for the name (first uses overlapped); distinct = distinct (round, k, entry rotation, creations).",
     );
     let seed = args.seed;
-    let rounds = args.pick(6_000, 400_000);
+    let rounds = args.pick(40_000, 1_000_000);
     let t0 = std::time::Instant::now();
     let budget = Duration::from_secs(args.pick(120, 1500));
     // current-thread rounds in parallel OS threads
@@ -1031,7 +1036,7 @@ pub fn c19(args: &Args) {
     }
     let seed = args.seed;
     let sizes = c19_sizes(args.tier);
-    let reps = args.pick(6, 60);
+    let reps = args.pick(12, 120);
     let n = sizes.len() as u64 * reps;
     // The cases run in child processes: a misaligned or out-of-bounds access in the
     // unchecked decode aborts the process in a debug build (rustc's runtime checks do
